@@ -159,6 +159,12 @@ def load_known():
         return json.load(f)
 
 
+def _ulp32(x):
+    import numpy as np
+    x = np.float32(x)
+    return float(np.nextafter(x, np.float32(np.inf)) - x)
+
+
 def _pf(sig, i):
     try:
         return float(sig['params'][i])
@@ -172,6 +178,10 @@ PREDICATES = {
     'fisher_f_den_dof_is_1': lambda sig: _pf(sig, 1) == 1.0,
     'student_t_dof_is_1': lambda sig: _pf(sig, 0) == 1.0,
     'geometric_p_below_2p-53': lambda sig: 0.0 < (_pf(sig, 0) or 0.0) < 2.0 ** -53,
+    'geometric_p_below_1e-12': lambda sig: 0.0 < (_pf(sig, 0) or 0.0) < 1e-12,
+    'lognormal_f32_mu_step_ge_1e-4_sigma': lambda sig: _ulp32(abs(_pf(sig, 0) or 0.0)) >= 1e-4 * abs(_pf(sig, 1) or 1e300),
+    'poisson_lambda_ge_5e5': lambda sig: (_pf(sig, 0) or 0) >= 5e5,
+    'hypergeometric_N_ge_2p36': lambda sig: (_pf(sig, 0) or 0) >= 2.0 ** 36,
     'dirichlet_gamma_underflow_regime': lambda sig: (sig.get('alpha_min') or 1.0) <= (0.25 if sig.get('ty') == 'f32' else 0.03),
     'dirichlet_params_min_le_0p25': lambda sig: min([float(x) for x in sig.get('params') or [1.0]]) <= 0.25,
     'hypergeometric_N_ge_2p53': lambda sig: (_pf(sig, 0) or 0) >= 2.0 ** 53,
